@@ -79,6 +79,10 @@ def run(prog: Program) -> Results:
             txt = norm(inner)
             scans = "'ERROR'" in txt and ".children" in txt and f"{e.func.id}(" in txt and ".type" in txt
             return scans
+        if isinstance(e, ast.IfExp):  # `<root>.has_error if <it exists> else <scan>(root)`
+            return predicate_ok(e.body, depth + 1) and predicate_ok(e.orelse, depth + 1)
+        if isinstance(e, ast.BoolOp) and isinstance(e.op, ast.Or):
+            return all(predicate_ok(v, depth + 1) for v in e.values)
         if isinstance(e, ast.Name) and depth < 3:
             ds = assignments_to(fn, e.id)
             return bool(ds) and all(isinstance(d, (ast.Assign, ast.AnnAssign)) and predicate_ok(d.value, depth + 1) for d in ds)
